@@ -18,7 +18,8 @@ RULE = (
     "complete product: data sets (D in {1,2,3}, n <= 6, offsets 0, 1000.1, 2^20, 1e6+0.1, 1e8+0.7; duplicates; a cluster that "
     "captures nothing) x centroid sets (K in {1,2,3}: data points, off-data, far away, trained by 1-2 Lloyd iterations) x "
     "{batch, every single sample, every row composition of a dask array} for transform / predict / cluster variances and "
-    "weights, and a k-means initialised GMM with 0 and 1 EM steps. Oracle: Fractions. Non-trivial: >= 2 clusters are "
+    "weights (also two lazy results in one graph, and dask arrays whose block lengths are unknown until computed), and a k-means initialised GMM "
+    "(with and without start weights given at construction) with 0 and 1 EM steps. Oracle: Fractions. Non-trivial: >= 2 clusters are "
     "non-empty and no exact tie; distinct = distinct (data, centroids)"
 )
 ASSUMPTIONS = [
@@ -157,6 +158,33 @@ def run_case(case):
         c.states += 1
         if c.viol:
             break
+    # (3b) two lazy results of one machine on different inputs with the same chunking, evaluated in one graph
+    if n >= 2 and not c.viol:
+        import dask
+
+        Xr = X[::-1].copy()
+        for comp in comps[:2]:
+            A, B = da.from_array(X.copy(), chunks=(comp, (D,))), da.from_array(Xr, chunks=(comp, (D,)))
+            ta, tb = dask.compute(m.transform(A), m.transform(B))
+            c.close(np.asarray(ta), dist, "dask_joint", f"transform of two inputs in one graph (chunks {comp}): first", tags, rtol=1e-12, atol=1e-300)
+            c.close(np.asarray(tb), dist[:, ::-1], "dask_joint", f"transform of two inputs in one graph (chunks {comp}): second", tags, rtol=1e-12, atol=1e-300)
+            if not tie:
+                pa, pb = dask.compute(m.predict(A), m.predict(B))
+                c.check(list(map(int, np.asarray(pa))) == labels and list(map(int, np.asarray(pb))) == labels[::-1], "dask_joint",
+                        lambda: f"predict of two inputs in one graph (chunks {comp}): {np.asarray(pa).tolist()} / {np.asarray(pb).tolist()} want {labels} / {labels[::-1]}", tags)
+            c.transitions += 4
+    # (3c) a dask array whose block lengths are unknown until computed (rows selected by a lazy mask)
+    if not c.viol:
+        for comp in comps[:3]:
+            comp2 = tuple(comp) + (2,)
+            Xe = np.vstack([X, X[:1] + 1.0, X[:1] - 1.0])
+            keep = da.from_array(np.arange(n + 2) < n, chunks=(comp2,))
+            A = da.from_array(Xe, chunks=(comp2, (D,)))[keep]
+            # (transform / predict of such an array with K > 1 is refused by dask itself - vstack of unknown lengths - and not called here)
+            if not tie:
+                v, w = m.get_variances_and_weights_for_each_cluster(A)
+                check_moments(v, w, f"masked dask array, chunks {comp2}")
+                c.transitions += 1
     # (4) GMM initialised from k-means: exactly (centroids, max(variance, floor), weights); then one EM step
     if not tie and nonempty == K and not c.viol:
         kinds_g = ["np", comps[-1]]
@@ -165,8 +193,10 @@ def run_case(case):
         for kind in kinds_g:
             A = X.copy() if kind == "np" else (X.astype(np.int64) if kind == "np_int" else da.from_array(X.copy(), chunks=(kind, (D,))))
             for floor in (None, 0.5 * s * s):
+                # weights given at construction are a start value only: initialisation from k-means replaces them
+                given = dict(weights=np.full(K, 1.0 / K)) if floor is not None else {}
                 g = GMMMachine(K, k_means_trainer=KMeansMachine(K, init_method=C0.copy(), max_iter=0), max_fitting_steps=0,
-                               update_means=True, update_variances=True, update_weights=True)
+                               update_means=True, update_variances=True, update_weights=True, **given)
                 if floor is not None:
                     g.variance_thresholds = floor
                 g.fit(A)
@@ -178,7 +208,7 @@ def run_case(case):
                         rtol=1e-9, scale=dev2)
                 if floor is not None or np.all(want_v > 1e-3 * s * s):
                     g1 = GMMMachine(K, k_means_trainer=KMeansMachine(K, init_method=C0.copy(), max_iter=0), max_fitting_steps=1, convergence_threshold=None,
-                                    update_means=True, update_variances=True, update_weights=True)
+                                    update_means=True, update_variances=True, update_weights=True, **given)
                     if floor is not None:
                         g1.variance_thresholds = floor
                     g1.fit(A)
